@@ -46,7 +46,40 @@ fn load_core(truth: &mut Truth, fmt: Fmt, game: Game) {
 
 pub enum ImageSrc { AnmBytes(Vec<u8>), Dir(std::path::PathBuf) }
 
-pub struct Compiled { pub bytes: Vec<u8>, pub debug_info: serde_json::Value }
+pub struct Compiled { pub bytes: Vec<u8>, pub debug_info: serde_json::Value, pub file: FileStruct }
+
+/// The in-memory form of a file (what the compiler produced / what the reader returned).
+pub enum FileStruct { Anm(truth::AnmFile), Std(truth::StdFile), Msg(truth::MsgFile), Mission(truth::MissionMsgFile), Ecl(truth::EclFile) }
+
+impl FileStruct {
+    pub fn write(&self, w: &mut BinWriter, fmt: Fmt, game: Game) -> Result<(), truth::ErrorReported> {
+        match self {
+            FileStruct::Anm(f) => f.write_to_stream(w, game),
+            FileStruct::Std(f) => f.write_to_stream(w, game),
+            FileStruct::Msg(f) => f.write_to_stream(w, game, if fmt == Fmt::End { LanguageKey::End } else { LanguageKey::Msg }),
+            FileStruct::Mission(f) => f.write_to_stream(w, game),
+            FileStruct::Ecl(f) => f.write_to_stream(w, game),
+        }
+    }
+    pub fn debug_string(&self) -> String {
+        match self { FileStruct::Anm(f) => format!("{:#?}", f), FileStruct::Std(f) => format!("{:#?}", f), FileStruct::Msg(f) => format!("{:#?}", f), FileStruct::Mission(f) => format!("{:#?}", f), FileStruct::Ecl(f) => format!("{:#?}", f) }
+    }
+}
+
+/// Read a binary into its in-memory form (with image data for ANM when `with_images`).
+pub fn read_file(truth: &mut Truth, fmt: Fmt, game: Game, bytes: &[u8], with_images: bool) -> Result<FileStruct, DStage> {
+    let emitter = truth.ctx().emitter;
+    let mut r = BinReader::from_reader(emitter, "<input file>", Cursor::new(bytes.to_vec()));
+    macro_rules! ig { ($e:expr) => { $e.map_err(|e| { e.ignore(); DStage::Read })? } }
+    Ok(match fmt {
+        Fmt::Anm => FileStruct::Anm(ig!(truth::AnmFile::read_from_stream(&mut r, game, with_images))),
+        Fmt::Std => FileStruct::Std(ig!(truth::StdFile::read_from_stream(&mut r, game))),
+        Fmt::Msg => FileStruct::Msg(ig!(truth::MsgFile::read_from_stream(&mut r, game, LanguageKey::Msg))),
+        Fmt::End => FileStruct::Msg(ig!(truth::MsgFile::read_from_stream(&mut r, game, LanguageKey::End))),
+        Fmt::Mission => FileStruct::Mission(ig!(truth::MissionMsgFile::read_from_stream(&mut r, game))),
+        Fmt::Ecl => FileStruct::Ecl(ig!(truth::EclFile::read_from_stream(&mut r, game))),
+    })
+}
 
 #[derive(Debug, Clone, Copy, PartialEq, Eq)]
 pub enum CStage { Mapfile, Parse, Validate, Compile, ImageSource, Finalize, Write }
@@ -68,7 +101,7 @@ pub fn compile_file_ex(truth: &mut Truth, fmt: Fmt, game: Game, text: &[u8], use
     let emitter = t.ctx().emitter;
     let mut w = BinWriter::from_writer(emitter, "<output>", Cursor::new(vec![]));
     macro_rules! ig { ($e:expr, $s:expr) => { $e.map_err(|e| { e.ignore(); $s })? } }
-    match fmt {
+    let file = match fmt {
         Fmt::Anm => {
             let mut c = ig!(t.compile_anm(game, &ast), CStage::Compile);
             // image sources referenced in the file take precedence (as in the CLI)
@@ -88,22 +121,22 @@ pub fn compile_file_ex(truth: &mut Truth, fmt: Fmt, game: Game, text: &[u8], use
                 };
                 ig!(c.apply_image_source(src, &fs), CStage::ImageSource);
             }
-            let f = ig!(t.finalize_anm(game, c), CStage::Finalize);
-            ig!(f.write_to_stream(&mut w, game), CStage::Write);
+            FileStruct::Anm(ig!(t.finalize_anm(game, c), CStage::Finalize))
         }
-        Fmt::Std => { let f = ig!(t.compile_std(game, &ast), CStage::Compile); ig!(f.write_to_stream(&mut w, game), CStage::Write); }
-        Fmt::Msg => { let f = ig!(t.compile_msg(game, LanguageKey::Msg, &ast), CStage::Compile); ig!(f.write_to_stream(&mut w, game, LanguageKey::Msg), CStage::Write); }
-        Fmt::End => { let f = ig!(t.compile_msg(game, LanguageKey::End, &ast), CStage::Compile); ig!(f.write_to_stream(&mut w, game, LanguageKey::End), CStage::Write); }
-        Fmt::Mission => { let f = ig!(t.compile_mission(game, &ast), CStage::Compile); ig!(f.write_to_stream(&mut w, game), CStage::Write); }
-        Fmt::Ecl => { let f = ig!(t.compile_ecl(game, &ast), CStage::Compile); ig!(f.write_to_stream(&mut w, game), CStage::Write); }
-    }
+        Fmt::Std => FileStruct::Std(ig!(t.compile_std(game, &ast), CStage::Compile)),
+        Fmt::Msg => FileStruct::Msg(ig!(t.compile_msg(game, LanguageKey::Msg, &ast), CStage::Compile)),
+        Fmt::End => FileStruct::Msg(ig!(t.compile_msg(game, LanguageKey::End, &ast), CStage::Compile)),
+        Fmt::Mission => FileStruct::Mission(ig!(t.compile_mission(game, &ast), CStage::Compile)),
+        Fmt::Ecl => FileStruct::Ecl(ig!(t.compile_ecl(game, &ast), CStage::Compile)),
+    };
+    ig!(file.write(&mut w, fmt, game), CStage::Write);
     let bytes = w.into_inner().into_inner();
     let c = t.ctx();
     let debug_info = serde_json::json!({
         "exported-scripts": serde_json::to_value(&c.script_debug_info).unwrap(),
         "consts": serde_json::to_value(&c.consts.debug_info(&c.defs)).unwrap(),
     });
-    Ok(Compiled { bytes, debug_info })
+    Ok(Compiled { bytes, debug_info, file })
 }
 
 #[derive(Debug, Clone, Copy, PartialEq, Eq)]
